@@ -4,15 +4,21 @@
 (* random select trees (depth <= 4) evaluated by the library, judged by    *)
 (* the reference semantics.                                                *)
 (*  [k |-> "e", e, names, vals, got, panic]                                *)
-(*  [k |-> "q", a, b (rows of tables A and B), q, got, panic]              *)
+(*  [k |-> "q", a, b, c (rows of tables A, B and C), q, got, panic]        *)
+(* C(K key, S nullable string, N i32 not null) brings string comparisons   *)
+(* into join conditions, a non-nullable column under left joins, and up to *)
+(* five rows per operand.                                                  *)
 (***************************************************************************)
 EXTENDS MC_Query, IOUtils
 Rec == ndJsonDeserialize(IOEnv.TRACE)
 VARIABLE l
+C == <<67>>  S == <<83>>  N == <<78>>
+ColsC == <<IntCol(K, "i16", FALSE, TRUE), StrCol(S, 0, TRUE, FALSE, <<>>), IntCol(N, "i32", FALSE, FALSE)>>
+Db3(x) == [t \in {A, B, C} |-> IF t = C THEN [cols |-> ColsC, rows |-> x.c] ELSE DbOf(x)[t]]
 Good(x) ==
   /\ ~x.panic
   /\ IF x.k = "e" THEN x.got \in EvalSet(x.e, [names |-> x.names, vals |-> x.vals])
-     ELSE LET r == SelectV(x.q, DbOf([a |-> x.a, b |-> x.b])) IN
+     ELSE LET r == SelectV(x.q, Db3(x)) IN
           IF ~IsErr(r) /\ ~r.ok.det THEN Print(<<"UNSPEC", l>>, TRUE)      \* the result is not determined
           ELSE x.got = ResultJ(r)
 TInit == l = 1 /\ db = [a |-> <<>>, b |-> <<>>] /\ case = [none |-> 0]
